@@ -1,4 +1,5 @@
 import XalanModel.C01.Spec
+import XalanModel.C01.Avt
 import Driver.Util
 /-!
 Reader for the request lines of `xm_c01`: documents as flat node records, stylesheets as
@@ -104,6 +105,10 @@ def optExpr : SExp → Option (Option Expr)
   | e => (parseExpr e).map some
 
 def parseAvt : SExp → Option (List AvtPart)
+  -- `( raw <text> )`: the attribute's text as written; the model's own §7.6.2 parser `Avt.avtParse` splits it
+  | .list [.atom "raw", .atom s] => do
+    let t ← decodeStr s
+    (XalanModel.C01.Avt.avtParse t).map XalanModel.C01.Avt.toParts
   | .list parts => parts.mapM fun p => match p with
     | .list [.atom "l", .atom s] => (decodeStr s).map .lit
     | .list [.atom "e", e] => (parseExpr e).map .expr
